@@ -76,6 +76,24 @@ pub fn inits(tier: Tier) -> Vec<Init> {
     v
 }
 
+/// non-initial cache states a user can set up through the public `state` field: several sample inputs stored at the
+/// root (all of them valid witnesses there), on both sides of the predicates that later operations put below
+pub fn seeded_inits() -> Vec<Init> {
+    let two = vec![vec![-1.0], vec![1.0]];
+    let three = vec![vec![-2.0], vec![0.5], vec![2.0]];
+    let quad = vec![vec![-1.0, -1.0], vec![1.0, -1.0], vec![-1.0, 1.0], vec![1.0, 1.0]];
+    vec![
+        Init::Seeded(Box::new(Init::New(1)), two.clone()),
+        Init::Seeded(Box::new(Init::New(1)), three),
+        Init::Seeded(Box::new(Init::New(2)), quad.clone()),
+        Init::Seeded(Box::new(Init::Schema(GSpec::Relu(0), 1)), two.clone()),
+        Init::Seeded(Box::new(Init::Schema(GSpec::HardTanh(0), 1)), vec![vec![-2.0], vec![0.0], vec![2.0]]),
+        Init::Seeded(Box::new(Init::Schema(GSpec::Relu(0), 2)), quad.clone()),
+        Init::Seeded(Box::new(Init::FromAff(Aff::new(vec![vec![1.0, 1.0], vec![1.0, -1.0]], vec![0.0, 0.5]))), quad),
+        Init::Seeded(Box::new(Init::FromPoly(vec![(vec![1.0], 1.0), (vec![-1.0], 1.0)], r1(&[1.0], 0.0), Some(r1(&[0.0], 5.0)))), two),
+    ]
+}
+
 const TAU: f64 = 1e-8;
 
 /// C05 invariant on one snapshot
@@ -184,10 +202,13 @@ fn explore(ctx: &mut Ctx, tree: &AffTree<2>, s: &Snap, in_dim: usize, d: usize, 
         hist.push(op.clone());
         ctx.out.add("transitions", 1);
         let rec = |extra: serde_json::Value| json!({"init": ctx.init.to_json(), "history": hist.iter().map(|o| o.to_json()).collect::<Vec<_>>(), "detail": extra});
-        match op.run(&mut t2, d) {
+        // the progress-display twin of a composition is run for the first two operations of a history (C04 only)
+        let res = if !ctx.for_c05 && hist.len() <= 2 { op.run_both(&mut t2, d) } else { op.run(&mut t2, d) };
+        match res {
             Err(msg) => {
                 if !ctx.for_c05 {
-                    let v = Violation::new(format!("{} panicked after a dimension-compatible history: {msg}", op.name()), rec(json!({"arena_before": s.to_json()}))).tag("kind", "panic").tag("op", op.name());
+                    let (kind, text) = op.failure(&msg);
+                    let v = Violation::new(format!("after a dimension-compatible history: {text}"), rec(json!({"arena_before": s.to_json()}))).tag("kind", kind).tag("op", op.name());
                     ctx.out.violate(v);
                 }
             }
@@ -271,7 +292,10 @@ fn run_init(init: &Init, first: usize, tier: Tier, for_c05: bool) -> CaseOut {
 
 /// split each init's exploration by its first operation to use all cores
 fn run_all(tier: Tier, for_c05: bool) -> CaseOut {
-    let is = inits(tier);
+    let mut is = inits(tier);
+    if for_c05 {
+        is.extend(seeded_inits());
+    }
     let total = Mutex::new(CaseOut::default());
     let mut tasks: Vec<(Init, usize)> = vec![];
     for init in &is {
@@ -410,7 +434,7 @@ pub fn run_c05(tier: Tier) -> Report {
     rep.absorb(wf);
     let tr = rep.coverage.get("transitions").and_then(|v| v.as_u64()).unwrap_or(0);
     rep.set("traces_validated_against_impl", tr);
-    rep.set("bound", format!("the C04 history exploration (<= {} operations) with the cache invariant evaluated on every node of every reached state; mirror_points on an exhaustive grid (1-2 dim polytopes with <= 3 rows, 1-2 start points from a 5-point lattice per axis, n_iterations in {{1,2,8,20}}); the witness-repair branch is driven by every single witness fault (solver point moved 1e-6 / 1e-3 beyond the tightest row, or by +1e3 / -1e2 / +3 in every coordinate) at every LP call of ~400 pruning runs", if tier == Tier::Quick { 3 } else { 4 }));
+    rep.set("bound", format!("the C04 history exploration (<= {} operations) with the cache invariant evaluated on every node of every reached state; mirror_points on an exhaustive grid (1-2 dim polytopes with <= 3 rows, 1-2 start points from a 5-point lattice per axis, n_iterations in {{1,2,8,20}}); the witness-repair branch is driven by every single witness fault (solver point moved 1e-6 / 1e-3 beyond the tightest row, or by +1e3 / -1e2 / +3 in every coordinate, or made NaN) at every LP call of ~400 pruning runs", if tier == Tier::Quick { 3 } else { 4 }));
     rep.assume("witness containment tolerance 1e-8 (+1e-12 for the f64 evaluation the library itself performs); 'infeasible' must not be fat (margin 1e-6)");
     rep
 }
